@@ -24,6 +24,7 @@ func twinRun(a, b prog.Program, oa, ob prog.RunOpts, diffKind string, seqOnly bo
 	if ra.Fail != nil {
 		return out, ra, prog.Result{}
 	}
+	ob.Forced = ra.Decisions // the second run repeats the exclusion decisions of the first
 	rb := prog.Run(b, ob)
 	out.Ev["twin_runs"] = 1
 	if rb.Fail != nil {
@@ -33,6 +34,12 @@ func twinRun(a, b prog.Program, oa, ob prog.RunOpts, diffKind string, seqOnly bo
 	}
 	if !ra.Ordered || !rb.Ordered {
 		out.Ev["twin_incomparable"] = 1
+		return out, ra, rb
+	}
+	if rb.Ev["decision_mismatch"] > 0 {
+		// the second run had to exclude a step the first one executed: the
+		// two runs did not execute the same program
+		out.Ev["twin_decision_mismatch"] = 1
 		return out, ra, rb
 	}
 	if seqOnly && (ra.Ev["concurrent_pairs"] > 0 || rb.Ev["concurrent_pairs"] > 0) {
@@ -107,9 +114,20 @@ func evalC03(p prog.Program) Outcome {
 	b := p.Clone()
 	b.Cfg.ClientNoGC, b.Cfg.ServerNoGC = true, true
 	g := guardFor("C03", p)
-	out, ra, _ := twinRun(a, b,
+	// The GC-off run goes first: it never purges, so its guard sees a superset
+	// of the tombstones and its exclusion decisions are repeated by the GC-on run.
+	out, _, ra := twinRun(b, a,
 		prog.RunOpts{ProjTag: "c03", Guard: g, Rebuild: true},
 		prog.RunOpts{ProjTag: "c03", Guard: g, Rebuild: true}, "GC-CHANGES-CONTENT", false)
+	if ra.Ev != nil {
+		// the class histogram describes the GC-on run
+		for k, v := range out.Ev {
+			if len(k) >= 4 && k[:4] == "twin" {
+				ra.Ev[k] = v
+			}
+		}
+		out.Ev = ra.Ev
+	}
 	if out.Fail == nil {
 		out.NonTrivial = ra.Ev["pull_after_purge"] > 0 || (ra.Ev["snapshot_pull"] > 0 && ra.Ev["pull_on_snapshot_fed"] > 0)
 	}
